@@ -159,17 +159,22 @@ def nopanic_rule(ctx, facts, cfg):
 
         def shape(site_):
             """('sum-of-lengths' | 'unit-increment-64' | 'sub-48' | None) for the overflow assert at this site, read off the MIR"""
-            defs_ = F.single_defs(f)
+            # the statement may sit in a closure called from this body (the obligation is lifted to the caller): read it where it is
+            fk_ = re.split(r'@(?:bb\d+|wrap):', site_)[0].split(' ')[-1]
+            sf_ = facts.fns.get(fk_) or f
+            defs_ = F.single_defs(sf_)
             mw_ = re.search(r'@wrap:(.+)$', site_)
             if mw_:
                 # build without overflow checks: the unchecked Add/Sub statement(s) at that source position
-                rvs_ = [s_['rv'] for _, b_ in F.blocks(f) for s_ in b_['stmts'] if s_['k'] == 'assign' and s_.get('at') == mw_.group(1) and s_['rv']['k'] == 'binop' and s_['rv']['op'] in ('Add', 'Sub', 'Mul')]
-                shapes_ = {_shape_of(rv_, defs_) for rv_ in rvs_}
+                rvs_ = [s_['rv'] for _, b_ in F.blocks(sf_) for s_ in b_['stmts'] if s_['k'] == 'assign' and s_.get('at') == mw_.group(1) and s_['rv']['k'] == 'binop' and s_['rv']['op'] in ('Add', 'Sub', 'Mul')]
+                shapes_ = {_shape_of(rv_, defs_, sf_) for rv_ in rvs_}
                 return shapes_.pop() if len(shapes_) == 1 else None
             m_ = re.search(r'@bb(\d+):', site_)
             if not m_:
                 return None
-            blk = f['blocks'][int(m_.group(1))]
+            if int(m_.group(1)) >= len(sf_['blocks']):
+                return None
+            blk = sf_['blocks'][int(m_.group(1))]
             tt = blk['term']
             if tt['k'] != 'assert':
                 return None
@@ -179,9 +184,9 @@ def nopanic_rule(ctx, facts, cfg):
             d_ = defs_.get(c['place']['local'])
             if not d_ or d_[0] != 'rv' or d_[1]['k'] != 'binop':
                 return None
-            return _shape_of(d_[1], defs_)
+            return _shape_of(d_[1], defs_, sf_)
 
-        def _shape_of(rv_, defs_):
+        def _shape_of(rv_, defs_, f=f):
             if rv_['op'].startswith('Add'):
                 rs_ = F.roots(f, defs_, rv_['l']) + F.roots(f, defs_, rv_['r'])
                 def _is_len(r_):
